@@ -28,6 +28,7 @@ item protocol rc[k], rc[k] = v, del rc[k]) through the same policy.
 
 from __future__ import annotations
 
+import functools
 import time
 
 import pymemcache.client.retrying as R
@@ -129,6 +130,63 @@ class Inner:
         return self._next("touch", a, kw)
 
 
+    def _call(self, name, *a, **kw):
+        return self._next(name, a, kw)
+
+
+# every public operation of the real Client is a method of the scripted client too: the retry policy must
+# not depend on which operation is wrapped
+from pymemcache.client.base import Client as _RealClient  # noqa: E402
+
+CLIENT_METHODS = sorted(n for n in dir(_RealClient) if not n.startswith("_") and callable(getattr(_RealClient, n))
+                        and n not in ("op", "get", "set", "delete", "touch"))
+
+
+def _mk(name):
+    def f(self, *a, **kw):
+        return self._next(name, a, kw)
+
+    f.__name__ = name
+    return f
+
+
+for _n in CLIENT_METHODS:
+    setattr(Inner, _n, _mk(_n))
+
+
+class _CallableObject:
+    def __init__(self, inner, name):
+        self.inner, self.name = inner, name
+
+    def __call__(self, *a, **kw):
+        return self.inner._next(self.name, a, kw)
+
+
+# how the wrapped client exposes the operation: an ordinary method, or some other callable attribute
+INNER_KINDS = ("instance-function", "partial", "staticmethod", "callable-object")
+
+
+def make_inner(kind, seq, log, name="op"):
+    if not kind:
+        return Inner(seq, log)
+    if kind == "staticmethod":
+        box = []
+        cls = type("InnerWithStatic", (Inner,), {name: staticmethod(lambda *a, **kw: box[0]._next(name, a, kw))})
+        inner = cls(seq, log)
+        box.append(inner)
+        return inner
+    inner = Inner(seq, log)
+    if kind == "instance-function":
+        setattr(inner, name, lambda *a, **kw: inner._next(name, a, kw))
+    elif kind == "partial":
+        setattr(inner, name, functools.partial(inner._call, name))
+    elif kind == "callable-object":
+        setattr(inner, name, _CallableObject(inner, name))
+    else:
+        raise ValueError(kind)
+    return inner
+
+
 # ---------------------------------------------------------------------------
 # reference policy
 
@@ -219,6 +277,10 @@ SHAPES = {
     "setitem": (lambda rc: rc.__setitem__(K, V), "set", None),
     "delitem": (lambda rc: rc.__delitem__(K), "delete", None),
 }
+for _n in CLIENT_METHODS:
+    SHAPES["m:" + _n] = ((lambda n: lambda rc: getattr(rc, n)(K, V, flag=FLAG))(_n), _n, ((K, V), {"flag": FLAG}))
+for _k in INNER_KINDS:
+    SHAPES["op@" + _k] = SHAPES["op"]
 
 
 def construct(inner, attempts, delay, rf_obj, dnr_obj):
@@ -229,7 +291,7 @@ def construct(inner, attempts, delay, rf_obj, dnr_obj):
 def run_case(attempts, delay, rf_obj, dnr_obj, seq, shape="op"):
     """-> (log, ending, inner) ; ending = ('ret', v) | ('exc', e) | ('overrun',) | ('ctor', e)"""
     log = []
-    inner = Inner(seq, log)
+    inner = make_inner(shape.partition("@")[2], seq, log)
     try:
         rc = construct(inner, attempts, delay, rf_obj, dnr_obj)
     except Exception as e:  # noqa
